@@ -1,6 +1,9 @@
 """C08 -- Assembly is independent of symmetry flag, format, layout, subset, thread count."""
 import base64
+import glob
+import hashlib
 import itertools
+import os
 import math
 import struct
 from concurrent.futures import ThreadPoolExecutor
@@ -65,6 +68,36 @@ CUSTOM = {
     'c3d22': {'expr': '(inner(as_matrix([[1,4],[0,2]]).dot(u), v) + Dx(u[0],2)*v[1]) * dx',
               'bfuns': [['u', 2], ['v', 2]], 'dim': 3, 'symmetric': False},
 }
+# --- update corpus: ONE updatable input feeding SEVERAL stored arrays / used in several places ---------
+_SEQ_S = [['field', 'f', 's1'], ['field', 'f', 's2'], ['field', 'f', 's0'], ['field', 'f', 's2'], ['field', 'f', 's1']]
+_SEQ_G = [['field', 'g', 'g1'], ['field', 'g', 'g2'], ['field', 'g', 'g0'], ['field', 'g', 'g1']]
+for _d in (1, 2):
+    # value + gradient of a parametric scalar spline field
+    CUSTOM['ufg%d' % _d] = {'expr': 'f * u * v * dx + inner(grad(f), grad(v)) * u * dx', 'args': {'f': 's0'},
+                            'updatable': ['f'], 'dim': _d, 'symmetric': False, 'updates': _SEQ_S, 'light': True}
+    # value + Hessian
+    CUSTOM['ufh%d' % _d] = {'expr': 'f * u * v * dx + tr(hess(f)) * u * v * dx', 'args': {'f': 's0'},
+                            'updatable': ['f'], 'dim': _d, 'symmetric': False, 'updates': _SEQ_S, 'light': True}
+    # value + Jacobian (divergence) of a vector-valued spline field
+    CUSTOM['ugv%d' % _d] = {'expr': 'inner(g, grad(v)) * u * dx + div(g) * u * v * dx', 'args': {'g': 'g0'},
+                            'updatable': ['g'], 'dim': _d, 'symmetric': False, 'updates': _SEQ_G, 'light': True}
+# physical and parametric gradient of the same field, plus its value (three uses)
+CUSTOM['ufpp1'] = {'expr': 'inner(grad(f), grad(v)) * u * dx + inner(grad(f, parametric=True), grad(v, parametric=True)) * u * dx + f * u * v * dx',
+                   'args': {'f': 's0'}, 'updatable': ['f'], 'dim': 1, 'symmetric': False, 'updates': _SEQ_S, 'light': True}
+CUSTOM['ufpp2'] = dict(CUSTOM['ufpp1'], dim=2)
+# a physical callable used in two terms, together with a second (non-updated) field
+CUSTOM['uphys2'] = {'expr': 'f * u * v * dx + f * h * inner(grad(u), grad(v)) * dx', 'args': {'f': 'f0', 'h': 'f2'},
+                    'updatable': ['f'], 'dim': 2, 'symmetric': True,
+                    'updates': [['field', 'f', 'f1'], ['field', 'f', 'f2'], ['field', 'f', 'f0'], ['field', 'f', 'f1']], 'light': True}
+# parameters used in two places (scalar, and a vector parameter next to a scalar one), with a field in between
+CUSTOM['upar1'] = {'expr': 'a * u * v * dx + a * f * inner(grad(u), grad(v)) * dx + c * Dx(u, 0) * v * dx',
+                   'args': {'a': 1.5, 'c': 0.5, 'f': 'f0'}, 'updatable': ['f'], 'dim': 1, 'symmetric': False,
+                   'updates': [['param', 'a', 2.5], ['param', 'c', -1.25], ['field', 'f', 'f1'], ['param', 'a', 0.75], ['field', 'f', 'f2']],
+                   'light': True}
+CUSTOM['upar2'] = {'expr': 'inner(b, grad(u)) * v * dx + inner(b, grad(v)) * u * dx + a * inner(b, b) * u * v * dx',
+                   'args': {'a': 1.5, 'b': [0.5, -1.0]}, 'dim': 2, 'symmetric': False,
+                   'updates': [['param', 'b', [2.0, 0.25]], ['param', 'a', -0.5], ['param', 'b', [-1.0, 3.0]]], 'light': True}
+UPDATE_FORMS = ['ufg1', 'ufg2', 'ufh1', 'ufh2', 'ugv1', 'ugv2', 'ufpp1', 'ufpp2', 'uphys2', 'upar1', 'upar2']
 FORMATS = ['csr', 'csc', 'coo', 'bsr', 'mlb']
 
 
@@ -102,7 +135,7 @@ def gen_cases(ctx):
                     c[k] = spec[k]
             if spec.get('updates'):
                 c['updates'] = spec['updates']
-                c['upd_symmetric'] = bool(rng.getrandbits(1))
+                c['upd_symmetric'] = bool(rng.getrandbits(1)) and bool(spec.get('symmetric'))
         # every configuration; symmetric=True also for unsymmetric forms on small cases (mirror tie)
         cfgs = []
         for sym in (False, True):
@@ -115,6 +148,8 @@ def gen_cases(ctx):
                     continue
                 for lay in (('blocked', 'packed') if vec else ('blocked',)):
                     cfgs.append([sym, fmt, lay])
+        if custom and CUSTOM[custom].get('light'):
+            cfgs = [[False, 'csr', 'blocked'], [False, 'csc', 'blocked']]
         c['configs'] = cfgs
         # arbitrary index subsets: in-pattern, out-of-pattern, repeated, unsorted
         subs = []
@@ -161,6 +196,11 @@ def gen_cases(ctx):
         add(None, 2, 'qa', False, True, False, custom='c2d22')
         add(None, 2, 'qa', False, True, False, custom='c2d23')
         add(None, 1, 'line', False, False, True, custom='c1d')
+        # update corpus (update sequence vs. fresh construction after every step)
+        for name in UPDATE_FORMS:
+            d = CUSTOM[name]['dim']
+            add(None, d, rng.choice(['qa', 'unit']) if d == 2 else 'line', bool(rng.getrandbits(1)), False,
+                CUSTOM[name]['symmetric'], custom=name)
     if thorough:
         add(None, 3, 'unit', True, True, False, custom='c3d22')
         add(None, 3, 'twisted', False, True, False, custom='c3d22')
@@ -168,6 +208,22 @@ def gen_cases(ctx):
             add('wave', 2, 'unit', True, False, False)
             add('stiff', 2, 'qa', True, False, True, bbox=True)
     return cases
+
+
+def vform_cache_dir(ctx):
+    """pyiga's on-disk cache of compiled forms is keyed by the form's hash only; the harness keys the cache
+    directory by the extension sources.  A change of the code GENERATOR (pure Python: pyiga/codegen/*.py,
+    vform.py, compile.py) would therefore be hidden by a warm cache.  C08 compiles its forms into a
+    directory that is additionally keyed by these files (below the ext-sha directory, so it is pruned with it)."""
+    from harness import core
+    ctx.impl.build()
+    h = hashlib.sha256()
+    files = sorted(glob.glob(os.path.join(ctx.impl.dir, 'pyiga', 'codegen', '*.py')))
+    files += [os.path.join(ctx.impl.dir, 'pyiga', f) for f in ('vform.py', 'compile.py')]
+    for f in files:
+        h.update(os.path.relpath(f, ctx.impl.dir).encode())
+        h.update(open(f, 'rb').read())
+    return os.path.join(core.CACHE, 'xdg', ctx.impl.sha, 'c08-' + h.hexdigest()[:16])
 
 
 def strip_case(c):
@@ -612,7 +668,25 @@ def run(ctx):
     log('[C08] %d cases (%d small/Coq-tied), %d chunk_tasks inputs, %d transpose patterns' % (
         len(cases), sum(1 for c in cases if c['small']), len(chunk_items), len(transp_items)))
     t0 = time.time()
-    r1 = ctx.impl.run(DRIVER, dict(payload, threads=1, mode='full'), timeout=2400)
+    xdg = vform_cache_dir(ctx)
+    # the 1-thread reference run, split over processes by form name (a form is compiled by one process only)
+    names = sorted({c['name'] for c in cases})
+    NG = 6
+    groups = [[k for k, c in enumerate(cases) if names.index(c['name']) % NG == g] for g in range(NG)]
+
+    def ref_run(g):
+        p = {'cases': [strip_case(cases[k]) for k in groups[g]], 'threads': 1, 'mode': 'full'}
+        if g == 0:
+            p['chunks'] = chunk_items
+            p['transp'] = transp_items
+        return ctx.impl.run(DRIVER, p, timeout=3000, xdg=xdg)
+    with ThreadPoolExecutor(max_workers=NG) as ex:
+        parts = list(ex.map(ref_run, range(NG)))
+    merged = [None] * len(cases)
+    for g, part in enumerate(parts):
+        for k, r in zip(groups[g], part['results']):
+            merged[k] = r
+    r1 = {'results': merged, 'chunks': parts[0]['chunks'], 'transp': parts[0]['transp']}
     log('[C08] 1-thread reference run %.1fs' % (time.time() - t0))
     results = r1['results']
 
@@ -622,7 +696,7 @@ def run(ctx):
 
     def one(n):
         p = {'cases': [strip_case(c) for c in cases], 'threads': n, 'mode': 'digest'}
-        return n, ctx.impl.run(DRIVER, p, timeout=2400)
+        return n, ctx.impl.run(DRIVER, p, timeout=2400, xdg=xdg)
     jobs = [n for n in tcounts for _ in range(reps)]
     with ThreadPoolExecutor(max_workers=5) as ex:
         tres = list(ex.map(one, jobs))
